@@ -167,6 +167,41 @@ def run(ctx):
                                      detail={str(k): v for k, v in answers.items()}))
         if ("OK", True) in answers:
             res.nontrivial.add(("perm", tuple(P.sx_text(a) for a in addends)))
+    # --- signed chains: t1 - t2 + t3 ... written as a left-nested chain of + and - (the additions and subtractions of ONE sum), terms
+    # over one or two variables (products such as xy included, so that a difference x - y and a product xy share their letters);
+    # every order of the signed terms that starts with a positive one must give the same answer
+    def chain(items):
+        t = items[0][1]
+        for sg, x in items[1:]:
+            t = ("add" if sg > 0 else "sub", t, x)
+        return t
+
+    def small_term():
+        r = rnd.random()
+        if r < 0.5:
+            v = P.V(rnd.choice("xxyyz"))
+            return v if rnd.random() < 0.6 else ("mul", P.C(rnd.choice([2, 3, 7])), v)
+        a, b = sorted(rnd.sample("xyz" if rnd.random() < 0.4 else "xy", 2))
+        pr = ("mul", P.V(a), P.V(b))
+        return pr if rnd.random() < 0.6 else ("mul", P.C(rnd.choice([2, 5])), pr)
+
+    for _ in range(ctx.n(250, 4000)):
+        k = rnd.randint(3, 4)
+        items = [(1 if i == 0 or rnd.random() < 0.5 else -1, P.normalize(small_term())) for i in range(k)]
+        answers = {}
+        for pm in itertools.permutations(range(k)):
+            if items[pm[0]][0] < 0:
+                continue
+            t = chain([items[i] for i in pm])
+            res.evaluations += 1
+            r = call(U.has_like_terms, P.build(t))
+            answers.setdefault(r, P.sx_text(t))
+        if len(answers) > 1:
+            res.failures.append(dict(**{"class": "like-terms-depend-on-order"}, input=dict(function="has_like_terms", signed_terms=[("+" if sg > 0 else "-") + P.sx_text(a) for sg, a in items]),
+                                     detail={str(k): v for k, v in answers.items()}))
+        res.count("signed chain: " + ("like terms" if ("OK", True) in answers else "no like terms"))
+        if len({sg for sg, _ in items}) > 1:
+            res.nontrivial.add(("chain", tuple((sg, P.sx_text(a)) for sg, a in items)))
     # --- natural-order term texts
     parser = ExpressionParser()
     grid = [(sc, c, v, se, e) for sc in ("", "-") for c in COEFS for v in (None, "x", "q") for se in ("", "-") for e in EXPOS
@@ -283,6 +318,9 @@ def replay(payload):
         a, b = P.build(P.sx_parse(inp["one"])), P.build(P.sx_parse(inp["two"]))
         print(f"terms_are_like({a}, {b}) = {U.terms_are_like(a, b)};  terms_are_like({b}, {a}) = {U.terms_are_like(b, a)}")
     elif fn == "has_like_terms":
-        print("addends:", inp["addends"])
+        print("addends:", inp.get("addends") or inp.get("signed_terms"))
+        for ans, tx in (f.get("detail") or {}).items():
+            t = P.build(P.sx_parse(tx))
+            print(f"  recorded {ans}: has_like_terms({t}) now = {call(U.has_like_terms, t)}")
     elif fn == "factor":
         print(U.factor(inp["n"]))
